@@ -17,11 +17,11 @@
    by a non-zero verdict. *)
 From V Require Import C11.Model.
 From stdpp Require Import gmap.
-From Coq Require Import ZArith.
+From Coq Require Import ZArith QArith.
 From V Require Import Base.Res Sched.LedgerModel Sched.StmtModel Sched.GangModel.
 Open Scope Z_scope.
 
-Inductive pkind := KGang | KPrio | KConf | KProp | KCap.
+Inductive pkind := KGang | KPrio | KConf | KProp | KCap | KDrf.
 Global Instance pkind_eq_dec : EqDecision pkind.
 Proof. solve_decision. Defined.
 
@@ -59,6 +59,8 @@ Definition with_qorder (E : env) (qo : list positive) : env :=
 
 Definition find_task (l : list task) (i : positive) : option task :=
   match filter (fun c => bool_decide (t_id c = i) = true) l with c :: _ => Some c | [] => None end.
+
+Definition Qmax_b (a b : Q) : Q := match (a ?= b)%Q with Lt => b | _ => a end.
 
 Inductive akind := AInter | AIntra | AReclaim.
 Global Instance akind_eq_dec : EqDecision akind.
@@ -186,6 +188,50 @@ Definition cap_reclaimer_ok (s : sess) (p : task) : bool :=
 Definition cap_vote (s : sess) (p : task) (l : list task) : list task :=
   if cap_reclaimer_ok s p then cap_go s p ∅ (omap (find_task l) (e_qorder E)) else [].
 
+(* drf.go preemptableFn 222-261 (registered for preempt only).  A job's allocation is drf's own per-job ledger
+   (= the handler ledger hshare); its share is the largest allocated / total over the resource names the cluster
+   total holds (calculateShare 566-578, helpers.Share), computed here in exact rationals.  The per-call copy of a
+   job's allocation is reduced by EVERY preemptee of the job that is looked at, victim or not
+   (`allocations[job].Sub(req)` mutates the cached copy), and the preemptee is a victim when the preemptor job's
+   share with the preemptor is below, or within shareDelta = 1e-6 of, the share of what is left. *)
+Definition total_res (s : sess) : res :=
+  map_fold (fun _ n acc => add acc (n_alloc n)) empty_res (nodes s).
+
+Definition ratio (a t : Z) : Q := if (t =? 0)%Z then (if (a =? 0)%Z then 0 else 1)%Q else Qmake a (Z.to_pos t).
+Definition dom_share (alloc tot : res) : Q :=
+  let c := if bool_decide (eps <= cpu tot)%Z then ratio (cpu alloc) (cpu tot) else 0%Q in
+  let m := if bool_decide (eps <= mem tot)%Z then ratio (mem alloc) (mem tot) else 0%Q in
+  map_fold (fun k v acc => if bool_decide (eps <= v)%Z then Qmax_b acc (ratio (sget alloc k) v) else acc)
+           (Qmax_b c m) (scm tot).
+Definition share_delta : Q := Qmake 1 1000000.
+(* ls < rs || |ls - rs| <= shareDelta *)
+Definition drf_lets_go (ls rs : Q) : bool :=
+  match (ls ?= rs)%Q with
+  | Lt => true
+  | _ => match ((ls - rs) ?= share_delta)%Q with Gt => false | _ => true end
+  end.
+
+Fixpoint drf_go_tr (s : sess) (ls : Q) (al : gmap positive res) (l : list task) : list (task * res) :=
+  match l with
+  | [] => []
+  | c :: r =>
+    match jobs s !! t_job c with
+    | None => drf_go_tr s ls al r
+    | Some _ =>
+      let left := sub (default (default empty_res (hshare s !! t_job c)) (al !! t_job c)) (t_req c) in
+      if drf_lets_go ls (dom_share left (total_res s))
+      then (c, left) :: drf_go_tr s ls (<[t_job c := left]> al) r
+      else drf_go_tr s ls (<[t_job c := left]> al) r
+    end
+  end.
+Definition drf_ls (s : sess) (p : task) : Q :=
+  dom_share (add (default empty_res (hshare s !! t_job p)) (t_req p)) (total_res s).
+Definition drf_vote (s : sess) (p : task) (l : list task) : list task :=
+  match jobs s !! t_job p with
+  | None => []
+  | Some _ => map fst (drf_go_tr s (drf_ls s p) ∅ l)
+  end.
+
 (* which function a plugin registered for the action, and its answer *)
 Definition vote_of (k : akind) (s : sess) (p : task) (l : list task) (pk : pkind) : option (list task) :=
   match pk with
@@ -194,6 +240,7 @@ Definition vote_of (k : akind) (s : sess) (p : task) (l : list task) (pk : pkind
   | KPrio => if is_reclaim k then None else Some (prio_vote s p l)
   | KProp => if is_reclaim k then Some (prop_vote s l) else None
   | KCap => if is_reclaim k then Some (cap_vote s p l) else None
+  | KDrf => if is_reclaim k then None else Some (drf_vote s p l)
   end.
 
 Definition uid_of (t : task) : Z := Zpos (t_id t).
